@@ -1045,8 +1045,14 @@ def random_history(rng, groups, length, weights=None, lo=-1, hi=3):
                 a = rng.randint(lo, hi)
             args.append(a)
             used.append(a)
+        if n in SEEDED_OPS:
+            args[0] = rng.randrange(10 ** 6)          # the first argument seeds the generated input (dict / matrix / RNG state)
+            args[1:] = [rng.randint(-1, 12) for _ in args[1:]]
         hist.append((n,) + tuple(args))
     return hist
+
+
+SEEDED_OPS = ("adj_dict", "adj_matrix", "randgraph")
 
 
 def systematic_histories(groups, reach, focus, cap=4000):
@@ -1107,6 +1113,12 @@ def explore(pid, budget_s=30.0, seed=0, repo_root="/repo", only=None, max_len=6,
         for nm in names:          # constructors of links are needed to get anywhere
             if nm.startswith("new_edge") or nm == "link_from_to":
                 weights[nm] = max(weights[nm], 4.0)
+    if "adj" in groups or "rand" in groups:
+        weights = dict(weights or {})
+        for nm, (_f, _a, g) in OPS.items():
+            if g in groups:
+                weights.setdefault(nm, 1.0)
+        weights.update({"adj_dict": 8.0, "adj_matrix": 8.0, "randgraph": 8.0})
     if "traverse" in groups:
         # graph shape matters here: longer histories made mostly of edge creations, then traversals / searches
         max_len = max(max_len, 10)
